@@ -92,7 +92,8 @@ def _init_strategy(tier):
                         "k": draw(gen.floats(-5e3, 5e3, 32)), "c": draw(gen.floats(-50.0, 50.0, 32)),
                         "spacing": draw(gen.floats(0.03, 0.2, 32)),
                         "pose": draw(bodies.pose_spec(planar=(dim == 2))), "radius": draw(gen.floats(0.15, 0.35, 32)),
-                        "t0": draw(st.sampled_from([0.0, 0.0, 2.5]))} for k in kinds],
+                        # forcing clock at construction: fresh runs, restarted runs, long runs (clock huge compared with dt)
+                        "t0": draw(st.sampled_from([0.0, 0.0, 2.5, 1234.5, 2.5e6, 1.0e9]))} for k in kinds],
             "flow": draw(gen.vector_field_spec(3, kinds=["poly", "noise", "mixed", "bumps", "constant"], max_mag_exp=3)),
         }
 
@@ -105,7 +106,7 @@ def _rules(tier):
     return {
         "evaluate_interaction": ({"b": b}, None),
         "evaluate_body_forces": ({"b": b}, None),
-        "time_step": ({"b": b, "dt": gen.log_uniform(1e-5, 1.0)}, None),
+        "time_step": ({"b": b, "dt": gen.log_uniform(1e-5, 1.0), "dt_f32": st.booleans()}, None),
         "move_body": ({"b": b, "fracs": st.lists(frac, min_size=40, max_size=40),
                        "vel": st.lists(gen.floats(-2.0, 2.0, 32), min_size=9, max_size=9),
                        "pose": bodies.pose_spec(planar=False)}, None),
@@ -285,12 +286,14 @@ def _step(s, op, ctx):
             raise Violation(f"body {bi}: net flow force {tot.tolist()} != -sum of PI marker forces {want.tolist()}")
         bd["hist"].append("eval")
     elif kind == "time_step":
-        dt = float(op["dt"])
+        # dt as the example drivers pass it: a Python float, or a single-precision scalar (flow_dt / n of a float32 simulator)
+        dt_obj = np.float32(op["dt"]) if op.get("dt_f32") else float(op["dt"])
+        dt = float(dt_obj)
         with ctx.repo_call("interaction time_step"):
-            bd["inter"].time_step(dt=dt)
+            bd["inter"].time_step(dt=dt_obj)
         bd["I"] = bd["I"] + dt * bd["V"]
         bd["S_I"] += dt * bd["S_V"]
-        bd["t"] = bd["t"] + dt
+        bd["t"] = bd["t"] + dt_obj  # the same addition, with the same operand types, as "simulation time advances by dt"
         bd["hist"].append("step")
     elif kind == "move_body":
         if bd.get("src"):
